@@ -57,6 +57,24 @@ func C20(c *core.Ctx) {
 	pkg := core.ModPath + "/std/engine/basic"
 	_, held := core.EntryLocks(p, pkg)
 
+	// the timeout sweep: the closures handed to Timer.Schedule and their private helpers —
+	// there the timer itself has fired and there is nothing to cancel
+	timeoutPath := map[*ssa.Function]bool{}
+	for _, fn := range p.FuncsIn(pkg) {
+		core.Instrs(fn, func(in ssa.Instruction) {
+			ci, ok := in.(ssa.CallInstruction)
+			if !ok || !ci.Common().IsInvoke() || ci.Common().Method.Name() != "Schedule" {
+				return
+			}
+			for _, a := range ci.Common().Args {
+				if mc, ok := core.Strip(a).(*ssa.MakeClosure); ok {
+					for _, g := range core.Reach(mc.Fn.(*ssa.Function)) {
+						timeoutPath[g] = true
+					}
+				}
+			}
+		})
+	}
 	nCb := 0
 	for _, fn := range p.FuncsIn(pkg) {
 		if strings.HasSuffix(p.File(fn.Pos()), "_test.go") {
@@ -92,7 +110,7 @@ func C20(c *core.Ctx) {
 			})
 			c.Decide(!reapp, "R20.1", "resolved-entry-not-kept:"+key, c.Pos(in), "after its callback the entry is not appended to the list that stays pending", fname+" keeps an entry in the pending list after invoking its callback: the same Interest resolves again on the next Data, Nack or timer")
 			// (c) list replaced or node deleted before returning
-			fr := core.MustFollow(fn, core.After(in), func(x ssa.Instruction) bool {
+			fr := core.MustFollowDeep(core.RootOf(fn), core.After(in), func(x ssa.Instruction) bool {
 				ci, ok := x.(ssa.CallInstruction)
 				if !ok {
 					return false
@@ -102,8 +120,8 @@ func C20(c *core.Ctx) {
 			}, nil)
 			c.Decide(fr.OK, "R20.1", "pending-list-replaced:"+key, c.Pos(in), "the node's list is replaced (SetValue) on every path after the callback, before the lock is released", fname+" can return after invoking a callback without replacing the node's pending list: the timeout closures keep their node, so a timer that already fired and waits for the lock finds the resolved entries again and resolves them a second time (unlinking the node from the trie does not help)")
 			// (d) timeout cancelled first (Data and Nack paths)
-			if fn.Name() == "onData" || fn.Name() == "onNack" {
-				okCancel := core.Precedes(fn, in, func(x ssa.Instruction) bool {
+			if !timeoutPath[fn] {
+				okCancel := core.PrecedesDeep(core.RootOf(fn), in, func(x ssa.Instruction) bool {
 					e2, ok := isFieldCall(x, "timeoutCancel")
 					return ok && core.Same(e2, entry)
 				})
@@ -159,7 +177,7 @@ func C20(c *core.Ctx) {
 		pkt := ssa.Value(od.Params[1])
 		var cbs []ssa.Instruction
 		var entry ssa.Value
-		core.Instrs(od, func(in ssa.Instruction) {
+		core.InstrsDeep(od, func(in ssa.Instruction) {
 			if e, ok := isFieldCall(in, "callback"); ok {
 				cbs = append(cbs, in)
 				entry = e
@@ -221,20 +239,20 @@ func C20(c *core.Ctx) {
 				}
 				return false
 			})
-			g1 := core.Gate(od, cbs, neg(shorter), pos(cbp))
+			g1 := core.GateDeep(od, cbs, neg(shorter), pos(cbp))
 			c.Decide(g1.OK && g1.PerLit[0] > 0 && g1.PerLit[1] > 0, "R20.2", "data-name-match-gate", p.Pos(od.Pos()), "callback unreachable when the Data name is longer than the Interest name and CanBePrefix is unset", "an Interest without CanBePrefix can be resolved by Data with a longer name (name-match gate missing or inverted)")
-			g2 := core.Gate(od, cbs, neg(impSet), pos(digestEq))
+			g2 := core.GateDeep(od, cbs, neg(impSet), pos(digestEq))
 			c.Decide(g2.OK && g2.PerLit[0] > 0 && g2.PerLit[1] > 0, "R20.2", "implicit-digest-gate", p.Pos(od.Pos()), "callback unreachable when an implicit digest was requested and differs", "an Interest that requested an implicit SHA-256 digest can be resolved by Data with a different digest")
 			// the walk covers every ancestor of the longest-prefix node
 			asc := false
-			core.Instrs(od, func(in ssa.Instruction) {
+			core.InstrsDeep(od, func(in ssa.Instruction) {
 				if ci, ok := in.(ssa.CallInstruction); ok {
 					if id, ok := core.Callee(ci.Common()); ok && id.Name == "Parent" && core.InLoop(in.Block()) {
 						asc = true
 					}
 				}
 			})
-			pm := core.FindCalls(od, core.CalleeID{Pkg: "std/engine/basic", Recv: "*", Name: "PrefixMatch"})
+			pm := core.FindCallsDeep(od, core.CalleeID{Pkg: "std/engine/basic", Recv: "*", Name: "PrefixMatch"})
 			c.Decide(asc && len(pm) == 1, "R20.2", "data-resolves-all-ancestors", p.Pos(od.Pos()), "onData walks Parent() from the longest-prefix node", "onData does not walk from the longest-prefix node to the root: pending Interests for shorter prefixes are not resolved by the Data")
 		}
 	}
@@ -242,7 +260,7 @@ func C20(c *core.Ctx) {
 	if ex := c.Fn("R20.2", "std/engine/basic", "Engine", "Express"); ex != nil {
 		var tcb ssa.Instruction
 		var tfn *ssa.Function
-		for _, f := range core.WithClosures(ex) {
+		for _, f := range core.Reach(ex) {
 			core.Instrs(f, func(in ssa.Instruction) {
 				if _, ok := isFieldCall(in, "callback"); ok {
 					tcb = in
@@ -263,12 +281,12 @@ func C20(c *core.Ctx) {
 					return ok && cl.Call.IsInvoke() && cl.Call.Method.Name() == "Now"
 				})
 			}}
-			g := core.Gate(tfn, []ssa.Instruction{tcb}, neg(alive))
+			g := core.GateDeep(core.RootOf(tfn), []ssa.Instruction{tcb}, neg(alive))
 			c.Decide(g.OK && g.PassEdges > 0, "R20.2", "timeout-not-before-deadline", c.Pos(tcb), "the timeout callback is unreachable while the entry's deadline is after now", "a pending Interest can be timed out before its own deadline (e.g. by the timer of an earlier Interest with the same name)")
 		}
 		// Schedule(lifetime + margin)
 		okSched := false
-		for _, f := range core.WithClosures(ex) {
+		for _, f := range core.Reach(ex) {
 			core.Instrs(f, func(in ssa.Instruction) {
 				ci, ok := in.(ssa.CallInstruction)
 				if !ok || !ci.Common().IsInvoke() || ci.Common().Method.Name() != "Schedule" {
@@ -294,7 +312,7 @@ func C20(c *core.Ctx) {
 		// the entry is inserted under the lock
 		_, heldEx := core.EntryLocks(p, pkg)
 		okIns := false
-		for _, f := range core.WithClosures(ex) {
+		for _, f := range core.Reach(ex) {
 			core.Instrs(f, func(in ssa.Instruction) {
 				if ci, ok := in.(ssa.CallInstruction); ok {
 					if id, ok := core.Callee(ci.Common()); ok && id.Name == "SetValue" && f != tfn {
@@ -307,7 +325,7 @@ func C20(c *core.Ctx) {
 		// selectors, deadline and callback
 		var ent *ssa.Alloc
 		var insFn *ssa.Function
-		for _, f := range core.WithClosures(ex) {
+		for _, f := range core.Reach(ex) {
 			core.Instrs(f, func(in ssa.Instruction) {
 				if al, ok := in.(*ssa.Alloc); ok && isNamed(core.Deref(al.Type()), "pendInt") {
 					ent = al
@@ -384,7 +402,7 @@ func C20(c *core.Ctx) {
 			})
 			okOrder := len(sends) > 0
 			for _, s := range sends {
-				if !core.Precedes(ex, s, func(x ssa.Instruction) bool {
+				if !core.PrecedesDeep(ex, s, func(x ssa.Instruction) bool {
 					cl, ok := x.(*ssa.Call)
 					if !ok {
 						return false
@@ -403,7 +421,7 @@ func C20(c *core.Ctx) {
 	if oi := c.Fn("R20.2", "std/engine/basic", "Engine", "onInterest"); oi != nil {
 		okLookup, okReply := false, false
 		_, heldOI := core.EntryLocks(p, pkg)
-		for _, f := range core.WithClosures(oi) {
+		for _, f := range core.Reach(oi) {
 			if f == oi {
 				continue
 			}
@@ -436,7 +454,7 @@ func C20(c *core.Ctx) {
 						return len(path) > 0 && path[len(path)-1] == "Deadline"
 					})
 				}}
-				g := core.Gate(f, sends, neg(expired))
+				g := core.GateDeep(core.RootOf(f), sends, neg(expired))
 				okReply = g.OK && g.PassEdges > 0
 			}
 		}
@@ -560,12 +578,19 @@ func c20Pruning(c *core.Ctx) {
 		n++
 		fname := core.FuncName(fn)
 		c.Funcs[fname] = true
+		// the node being unlinked is the one whose key is deleted from its parent's child
+		// map: the receiver in the recursive form, the loop cursor in the iterative form
 		self := ssa.Value(fn.Params[0])
 		var unlinks []ssa.Instruction
 		core.Instrs(fn, func(in ssa.Instruction) {
 			if cl, ok := isBuiltinCall(in, "delete"); ok {
 				if _, okF := core.FieldOf(cl.Call.Args[0], "chd"); okF {
 					unlinks = append(unlinks, in)
+					if len(cl.Call.Args) == 2 {
+						if nd, okK := core.FieldOf(cl.Call.Args[1], "key"); okK {
+							self = core.Strip(nd)
+						}
+					}
 				}
 			}
 		})
@@ -628,8 +653,16 @@ func c20Pruning(c *core.Ctx) {
 		c.Decide(g1.OK && g1.PassEdges > 0, "R20.3", "unlink-only-if-predicate:"+fname, p.Pos(fn.Pos()), "a node is unlinked only on the edge asserting pred(n.val)", "DeleteIf can unlink a node whose value does not satisfy the predicate (a node that still holds pending Interests / a handler)")
 		c.Decide(g2.OK && g2.PassEdges > 0, "R20.3", "unlink-only-leaf:"+fname, p.Pos(fn.Pos()), "a node is unlinked only on the edge asserting that it has no children", "DeleteIf can unlink a node that still has children: every pending Interest (or handler) below it is lost — later Data for those names is dropped as unsolicited")
 		c.Decide(g3.OK && g3.PassEdges > 0, "R20.3", "unlink-only-own-link:"+fname, p.Pos(fn.Pos()), "a node is unlinked only while its parent still refers to it", "DeleteIf on a node that was unlinked earlier (a timeout closure keeps its node) deletes the parent's entry for that key, which by then belongs to a newer node: its pending Interests are lost")
-		// (c) recursion at the parent with the same predicate
+		// (c) recursion at the parent with the same predicate — or, in the iterative form,
+		// the cursor advances to its parent on the way back to the loop header
 		rec := false
+		if ph, ok := self.(*ssa.Phi); ok {
+			for _, e := range ph.Edges {
+				if b, okF := core.FieldOf(e, "par"); okF && core.Same(b, self) {
+					rec = true
+				}
+			}
+		}
 		core.Instrs(fn, func(in ssa.Instruction) {
 			cl, ok := in.(*ssa.Call)
 			if !ok || cl.Call.StaticCallee() == nil || baseName(cl.Call.StaticCallee()) != "DeleteIf" {
@@ -650,7 +683,7 @@ func c20Pruning(c *core.Ctx) {
 			continue
 		}
 		var dels []ssa.CallInstruction
-		core.Instrs(fn, func(in ssa.Instruction) {
+		core.InstrsDeep(fn, func(in ssa.Instruction) {
 			if ci, ok := in.(ssa.CallInstruction); ok {
 				if id, ok := core.Callee(ci.Common()); ok && id.Pkg == "std/engine/basic" && id.Name == "DeleteIf" {
 					dels = append(dels, ci)
@@ -660,7 +693,7 @@ func c20Pruning(c *core.Ctx) {
 		okClr := len(dels) > 0
 		for _, d := range dels {
 			node, _ := core.CallArgs(d.Common())
-			if !core.Precedes(fn, d, func(x ssa.Instruction) bool {
+			if !core.PrecedesDeep(fn, d, func(x ssa.Instruction) bool {
 				ci, ok := x.(ssa.CallInstruction)
 				if !ok {
 					return false
@@ -674,7 +707,7 @@ func c20Pruning(c *core.Ctx) {
 			}) {
 				okClr = false
 			}
-			if em := core.FindCalls(fn, core.CalleeID{Pkg: "std/engine/basic", Recv: "*", Name: "ExactMatch"}); len(em) != 1 || !core.Same(node, em[0].Value()) {
+			if em := core.FindCallsDeep(fn, core.CalleeID{Pkg: "std/engine/basic", Recv: "*", Name: "ExactMatch"}); len(em) != 1 || !core.Same(node, em[0].Value()) {
 				okClr = false
 			}
 		}
